@@ -1,12 +1,37 @@
 (* C05 - A report exactly when every sale is covered.  Statements only. *)
-From Coq Require Import QArith Qcanon ZArith List Bool.
-Require Import CGT.Model.Num CGT.Model.Match CGT.Proofs.MatchFacts.
+From Coq Require Import QArith Qcanon ZArith List Bool Sorted.
+Require Import CGT.Model.Num CGT.Model.Match CGT.Proofs.MatchFacts CGT.Proofs.MatchInv CGT.Proofs.Examples.
 Import ListNotations.
 Open Scope Qc_scope.
 
-(* A sale larger than the position (acquisitions less disposals, rescaled) is refused
-   with an error carrying the sale's date, whatever later purchases exist. *)
+(* first_uncovered pos ds: walking the days in order with the position (acquisitions less disposals,
+   rescaled by each day's splits), the date of the first sale day whose sales exceed the position
+   including that day's purchases; None when every sale is covered. *)
+
+(* A sale larger than the position is refused with an error carrying the sale's date,
+   whatever later purchases exist. *)
 Theorem C05_beyond_position_refused : forall w offs s d fut avail0 pos1,
   pos1 < sq d -> sell_step w offs s d fut avail0 pos1 = inl (EExceedsHolding (dt d)).
 Proof. exact sell_step_position. Qed.
+
+(* With no other obstacle (the cost pre-pass accepts the capital returns), a well-formed date-sorted
+   security ledger is accepted if and only if every sale is covered; otherwise the error is
+   ExceedsHolding at the date of the first uncovered sale.  Covered ledgers are never refused
+   (no reservation, unmatched-remainder or division error can occur); a later repurchase never helps. *)
+Theorem C05_accepted_iff_covered : forall w ds offs,
+  wf_days ds -> sorted_days ds -> prepass false [] ds = inr offs ->
+  match first_uncovered 0 ds with
+  | Some z => run w ds = inl (EExceedsHolding z)
+  | None => exists s, run w ds = inr s
+  end.
+Proof. exact run_accepts_iff_covered. Qed.
+
+Example C05_witness_covered : wf_days ex1 /\ sorted_days ex1 /\ first_uncovered 0 ex1 = None.
+Proof. split; [exact ex1_wf|]. split; [exact ex1_sorted|vm_compute; reflexivity]. Qed.
+(* duplicated sale whose first copy is matched to a later repurchase: refused at the second sale *)
+Example C05_witness_uncovered : wf_days ex_uncovered /\ sorted_days ex_uncovered /\
+  first_uncovered 0 ex_uncovered = Some 32%Z /\ run 30 ex_uncovered = inl (EExceedsHolding 32).
+Proof. split; [exact ex_uncovered_wf|]. split; [exact ex_uncovered_sorted|exact ex_uncovered_refused]. Qed.
+
 Print Assumptions C05_beyond_position_refused.
+Print Assumptions C05_accepted_iff_covered.
